@@ -94,4 +94,16 @@ CHECKS["C07"] = {
     "assumptions": COMMON_ASSUMPTIONS + ["the virtual sleep hook is the only way the library blocks the caller"],
 }
 
+CHECKS["C08"] = {
+    "package": "seq", "bin": "c08", "flavor": "seq",
+    "shards": {"quick": 4, "thorough": 16},
+    "level": "exploration",
+    "technique": "runtime monitoring: trace-specification monitor over generated demand profiles (tens of virtual seconds each) under a virtual clock; admissions recorded per 500 ms bucket, the calculator's allowance sampled once per second",
+    "rule": "cases = warm-up/reject rule (q in 30..500 with q >= 10c, cold factor 0(=3),2..6, period 1..8 s quick / 1..20 s thorough) x arrival grid {1,2,5,7,10,13,20} ms with a random in-grid offset x a demand profile built from phases {saturating, exactly-at-allowance, below q/c, idle} (on/off with gaps of 2p, 2p+1, 2.5p, 3p, 5p seconds that must re-cool; shorter gaps with bounds only). Phases are whole calendar seconds so that 'per statistic interval' is measured on bucket-aligned windows. Every case is non-trivial if it reached q from cold, re-cooled after an idle gap, or served sub-cold demand without rejection; distinct = distinct (q class, c, p, grid, phase pattern, reached q?, re-cooled?)",
+    "level_text": "Asserted per second of traffic: admissions in any two consecutive 500 ms buckets <= q; allowance within [q/c - 1, q]; under saturating demand admissions >= floor(q/c) - 1, allowance non-decreasing and equal to q no later than 2p+2 s after a cold start; a cold second (initial, or first after an idle gap >= 2p) admits floor(q/c) +- 1; demand below q/c and demand exactly at the allowance are never rejected; exploration.",
+    "level_note": "The +-1 slacks are the integer truncation of token counts ('about' in the statement). The allowance is read through Controller::get_calculator() right after a real request of the same second (the once-per-second token sync is idempotent then).",
+    "design_ref": "DESIGN.md §5 C08",
+    "assumptions": COMMON_ASSUMPTIONS + ["default 1 s / 2 x 500 ms statistic window"],
+}
+
 NOT_APPLICABLE = {}
